@@ -1,7 +1,7 @@
 //@ unit L_subst
 //@ props C04 C02
 //@ strength proved-unbounded
-//@ min-verified 6
+//@ min-verified 8
 //@ assume Coverage::glyph_coverage_value is used through its contract (proved in L_cov); here it is abstracted as an uninterpreted function of (coverage, glyph)
 //@ assume 64-bit target: `global size_of usize == 8` (isize arithmetic of SingleSubst format 1)
 //@ unverified gsub.rs callers (singlesubst, multiplesubst, alternatesubst, ligaturesubst) - Kani units C04_*
